@@ -76,6 +76,7 @@ func (fr *frame) freshRef() string {
 	a := fr.st.get(u, k)
 	r := u.define(fr.tag("ref"), "Int", "(+ "+a+" 1)")
 	fr.st.set(k, r)
+	u.freshRefs[r] = true
 	return r
 }
 
@@ -143,10 +144,10 @@ func (fr *frame) instr(ins ssa.Instruction) {
 		mt := x.Type().Underlying().(*types.Map)
 		r := fr.freshRef()
 		kd, kv := u.keyMapDom(mt), u.keyMapVal(mt)
-		fr.st.set(kd, fmt.Sprintf("(store %s %s ((as const (Array %s Bool)) false))", fr.st.get(u, kd), r, u.sortOf(mt.Key())))
+		fr.st.setAt(kd, fmt.Sprintf("(store %s %s ((as const (Array %s Bool)) false))", fr.st.get(u, kd), r, u.sortOf(mt.Key())), r)
 		_ = kv
 		kl := u.keyMapLen()
-		fr.st.set(kl, fmt.Sprintf("(store %s %s 0)", fr.st.get(u, kl), r))
+		fr.st.setAt(kl, fmt.Sprintf("(store %s %s 0)", fr.st.get(u, kl), r), r)
 		fr.vals[x] = Val{t: r, typ: x.Type()}
 	case *ssa.MapUpdate:
 		fr.mapUpdate(x)
@@ -250,7 +251,7 @@ func (fr *frame) alloc(a *ssa.Alloc) Val {
 	if at, ok := t.Underlying().(*types.Array); ok {
 		r := fr.freshRef()
 		k := u.keyM(at.Elem())
-		fr.st.set(k, fmt.Sprintf("(store %s %s %s)", fr.st.get(u, k), r, u.zero(t)))
+		fr.st.setAt(k, fmt.Sprintf("(store %s %s %s)", fr.st.get(u, k), r, u.zero(t)), r)
 		return Val{t: r, typ: a.Type(), ptr: &Ptr{kind: pArray, ref: r, typ: at.Elem(), n: at.Len()}}
 	}
 	if !allocEscapes(a) {
@@ -646,7 +647,7 @@ func (fr *frame) convert(x *ssa.Convert) Val {
 				r := fr.freshRef()
 				k := u.keyM(sl.Elem())
 				s := fr.term(v)
-				fr.st.set(k, fmt.Sprintf("(store %s %s (S_arr %s))", fr.st.get(u, k), r, s))
+				fr.st.setAt(k, fmt.Sprintf("(store %s %s (S_arr %s))", fr.st.get(u, k), r, s), r)
 				return Val{t: fmt.Sprintf("(mk-slc %s %s (S_len %s) (S_len %s))", r, u.mode.idxLit(0), s, s), typ: to}
 			}
 		}
